@@ -71,7 +71,7 @@ def enc_cases(ck, count, maxchunks=5, exhaustive_lengths=False):
             T = Ts[(i // 15) % len(Ts)] if n % 3 else r.choice(Ts)
             i += 1
             res.append(EncCase(n, cm, hm, T, rnd_key(r), rnd_seed(r), rnd_bytes(r, n), "len=%s" % lencls(n)))
-        return res + related_block_cases(ck, 45) + counter_carry_cases(ck) + constant_chunk_cases(ck)
+        return res + related_block_cases(ck, 45) + counter_carry_cases(ck) + constant_chunk_cases(ck) + structured_state_cases(ck)
     i = 0
     while len(res) < count:
         n = lens[(i * 7) % len(lens)] if r.random() < 0.45 else r.randrange(0, maxchunks * CH + 40)
@@ -79,7 +79,7 @@ def enc_cases(ck, count, maxchunks=5, exhaustive_lengths=False):
         T = Ts[(i // 3) % len(Ts)]
         i += 1
         res.append(EncCase(n, cm, hm, T, rnd_key(r), rnd_seed(r), rnd_bytes(r, n), "len=%s" % lencls(n)))
-    return res + related_block_cases(ck, max(4, count // 12)) + counter_carry_cases(ck) + constant_chunk_cases(ck)
+    return res + related_block_cases(ck, max(4, count // 12)) + counter_carry_cases(ck) + constant_chunk_cases(ck) + structured_state_cases(ck)
 
 
 # seeds whose first IV (SHA-1 of the seed, bytes 0..15) ends in FF FF FF Ex: a CTR stream started from it carries out of its low
@@ -108,6 +108,40 @@ def constant_chunk_cases(ck):
     for j, (name, chunks, extra) in enumerate(shapes):
         plain = b"".join(rnd_bytes(r, CH) if v is None else bytes([v]) * CH for v in chunks) + rnd_bytes(r, extra)
         res.append(EncCase(len(plain), j % 5, j % 3, [1, 2, 3, 4][j % 4], rnd_key(r), rnd_seed(r), plain, "constant-chunks/" + name))
+    return res
+
+
+def structured_state_cases(ck):
+    """ECB / CBC files whose blocks drive the AES state, in some round, into a shape a table shortcut may special-case (an all-zero
+    column or row entering (Inv)MixColumns, zero bytes, a uniform state): the plaintext blocks are computed backwards with the
+    extracted SPEC (mdrv aesprobe) for the file's own key; decryption of the resulting ciphertext passes through the same states"""
+    r = ck.rng
+    mdrv = ck.model_driver()
+    res = []
+    for j in range(3):
+        key = rnd_key(r)
+        probes = []
+        for rnd in r.sample(range(1, 10), 6):
+            t = bytearray(rnd_bytes(r, 16))
+            kind = r.randrange(4)
+            if kind == 0:
+                col = r.randrange(4)
+                t[4 * col:4 * col + 4] = bytes(4)
+            elif kind == 1:
+                row = r.randrange(4)
+                for col in range(4):
+                    t[4 * col + row] = 0
+            elif kind == 2:
+                col = r.randrange(3)
+                t[4 * col:4 * col + 4] = bytes(4)          # a zero column FOLLOWED by a non-zero one
+                t[4 * col + 4] |= 1
+            else:
+                t = bytearray([r.randrange(256)] * 16)
+            probes.append((bytes(t), rnd))
+        out = wv.run_lines([mdrv], ["q%d aesprobe %s %s %d" % (i, key.hex(), t.hex(), rnd) for i, (t, rnd) in enumerate(probes)], shards=1)
+        blocks = [bytes.fromhex(out["q%d" % i]) for i in range(len(probes)) if len(out.get("q%d" % i, "")) == 32]
+        plain = rnd_bytes(r, 16 * r.randrange(0, 3)) + b"".join(blocks) + rnd_bytes(r, r.randrange(1, 40))
+        res.append(EncCase(len(plain), 0 if j < 2 else 1, j % 3, [1, 2, 3][j], key, rnd_seed(r), plain, "aes-structured-states"))
     return res
 
 
